@@ -19,13 +19,15 @@ func init() {
 	})
 }
 
-func runC17(r *Run, p *Prog) {
-	ro := DiscoverRoles(p)
-	T, cg := ro.T, ro.CG
+// ctxOpTemplateRules: the template rules of the context-aware I/O operations (arm D1, cancel arm D2, buffered result
+// channel D3), reported under the rule ids given by id. Other properties whose statement depends on these operations
+// behaving (replies are written, frames are read, raw reads continue the stream, serving drains on cancellation)
+// re-evaluate them under a rule id of their own; dir restricts to the read or the write operations ("" = all).
+func ctxOpTemplateRules(r *Run, p *Prog, T *Terms, id func(string) string, dir string) int {
 	ops := DiscoverCtxOps(p, T, pkgCtxio)
 	if len(ops) == 0 {
-		r.Unresolved("D1", "context-aware I/O operations (methods of the connection wrapper that start a helper goroutine)")
-		return
+		r.Unresolved(id("D1"), "context-aware I/O operations (methods of the connection wrapper that start a helper goroutine)")
+		return 0
 	}
 	// the "past" variable(s): package variables of ctxio written only in init with time.Unix(small const, _)
 	past := map[string]bool{}
@@ -49,10 +51,15 @@ func runC17(r *Run, p *Prog) {
 			}
 		}
 	}
+	nops := 0
 	for _, op := range ops {
+		if dir != "" && op.IODir != "" && op.IODir != dir {
+			continue
+		}
+		nops++
 		fn := shortName(op.Fn)
 		if len(op.Problems) > 0 || op.Select == nil || op.DoneIdx < 0 || op.ResIdx < 0 || op.IOCall == nil {
-			r.Ob("D1", fn, "operation matches the helper-goroutine template", op.Go.Pos(), false,
+			r.Ob(id("D1"), fn, "operation matches the helper-goroutine template", op.Go.Pos(), false,
 				fmt.Sprintf("shape not recognised: problems=%v select=%v ctx.Done case=%d result case=%d helper I/O found=%v", op.Problems, op.Select != nil, op.DoneIdx, op.ResIdx, op.IOCall != nil))
 			continue
 		}
@@ -80,25 +87,36 @@ func runC17(r *Run, p *Prog) {
 		if c, ok := op.Select.States[op.DoneIdx].Chan.(*ssa.Call); ok {
 			doneOK = strip(T.T(c.Call.Value)) == ctxP
 		}
-		r.Ob("D2", fn, "the select waits on the operation's own ctx.Done()", op.Select.Pos(), doneOK && ctxP != "", "the cancellation case does not receive from the Done channel of the operation's context parameter")
+		r.Ob(id("D2"), fn, "the select waits on the operation's own ctx.Done()", op.Select.Pos(), doneOK && ctxP != "", "the cancellation case does not receive from the Done channel of the operation's context parameter")
 		// ---- D1
-		r.Guard("D1", func() {
+		r.Guard(id("D1"), func() {
 			ok, w := everyPathPasses(op.Fn, nil, func(in ssa.Instruction) bool { return in == ssa.Instruction(op.Go) },
 				func(in ssa.Instruction) bool { return isSetter(in, func(a string) bool { return a == dlT }) })
-			r.Ob("D1", fn, "before the helper starts, the "+op.IODir+" deadline is set to the context's deadline on every path (unconditionally)", op.Go.Pos(), ok,
+			r.Ob(id("D1"), fn, "before the helper starts, the "+op.IODir+" deadline is set to the context's deadline on every path (unconditionally)", op.Go.Pos(), ok,
 				"the helper can be started without Set"+strings.Title(op.IODir)+"Deadline(ctx deadline): a context deadline is not honoured, and a deadline armed by an earlier operation stays in force for this one", witnessPos(p, w)...)
 			// no way through the operation avoids the arming call (e.g. a fast path doing the I/O directly)
 			// (a path that returns without touching the wrapped connection or its reader needs no deadline)
 			ok2, w2 := everyPathPasses(op.Fn, nil, func(in ssa.Instruction) bool { return wrapperIO(T, op.Fn, in) },
 				func(in ssa.Instruction) bool { return isSetter(in, func(a string) bool { return a == dlT }) })
-			r.Ob("D1", fn, "every path to I/O on the wrapped connection first sets the "+op.IODir+" deadline to the context's deadline", op.Fn.Pos(), ok2,
+			r.Ob(id("D1"), fn, "every path to I/O on the wrapped connection first sets the "+op.IODir+" deadline to the context's deadline", op.Fn.Pos(), ok2,
 				"the operation can perform I/O on the connection (outside the helper) without calling Set"+strings.Title(op.IODir)+"Deadline(ctx deadline): it is not governed by the context, and a deadline left armed by an earlier operation with a deadline context is then still in force and makes this one fail with a timeout although its own context is live", witnessPos(p, w2)...)
+			// nothing in the operation itself performs blocking I/O on the wrapped connection: only the helper goroutine
+			// does, because only there can a cancellation without deadline interrupt it (the operation sets a deadline
+			// in the past and waits for the helper)
+			for _, b := range op.Fn.Blocks {
+				for _, in := range b.Instrs {
+					if wrapperIO(T, op.Fn, in) {
+						r.Ob(id("D1"), fn, "no I/O on the wrapped connection outside the helper goroutine", in.Pos(), false,
+							"the operation performs I/O on the connection in its own goroutine: a cancelled context without deadline cannot interrupt it, so the operation (and whoever waits for it, e.g. a draining service) hangs until the peer acts")
+					}
+				}
+			}
 			// no deadline setter of the wrong kind
 			for _, b := range op.Fn.Blocks {
 				for _, in := range b.Instrs {
 					if c, ok := in.(*ssa.Call); ok {
 						if k := deadlineSetterKind(&c.Call); k != "" && k != op.IODir && k != "both" {
-							r.Ob("D1", fn, "deadline setters match the direction of the I/O ("+op.IODir+")", c.Pos(), false, "the operation performs a "+op.IODir+" but sets the "+k+" deadline: cancellation cannot unblock it")
+							r.Ob(id("D1"), fn, "deadline setters match the direction of the I/O ("+op.IODir+")", c.Pos(), false, "the operation performs a "+op.IODir+" but sets the "+k+" deadline: cancellation cannot unblock it")
 						}
 					}
 				}
@@ -108,13 +126,13 @@ func runC17(r *Run, p *Prog) {
 				if c, ok := deadlineSetterErrEdge(b); ok {
 					if reach, _ := reachInstr(op.Fn, nil, func(in ssa.Instruction) bool { return in == ssa.Instruction(c) }, func(in ssa.Instruction) bool { return in == ssa.Instruction(op.Go) }, nil); reach {
 						bad, w2 := reachFromBlock(op.Fn, b.Succs[0], func(in ssa.Instruction) bool { return in == ssa.Instruction(op.Go) }, nil)
-						r.Ob("D1", fn, "a failing deadline setter returns before the helper is started", c.Pos(), !bad, "", witnessPos(p, w2)...)
+						r.Ob(id("D1"), fn, "a failing deadline setter returns before the helper is started", c.Pos(), !bad, "", witnessPos(p, w2)...)
 					}
 				}
 			}
 		})
 		// ---- D2
-		r.Guard("D2", func() {
+		r.Guard(id("D2"), func() {
 			var doneBlock *ssa.BasicBlock
 			for _, b := range op.Fn.Blocks {
 				if k, ok := selectIndexEdge(b, op.Select); ok && k == op.DoneIdx {
@@ -122,7 +140,7 @@ func runC17(r *Run, p *Prog) {
 				}
 			}
 			if doneBlock == nil {
-				r.Ob("D2", fn, "cancel arm found", op.Select.Pos(), false, "no branch on `select index == ctx.Done() case`")
+				r.Ob(id("D2"), fn, "cancel arm found", op.Select.Pos(), false, "no branch on `select index == ctx.Done() case`")
 				return
 			}
 			isJoin := func(in ssa.Instruction) bool { return op.isJoinRecv(T, in) }
@@ -138,11 +156,11 @@ func runC17(r *Run, p *Prog) {
 			}
 			// (a) past deadline before the join, on every path
 			reach, w := reachFromBlockAvoid(op.Fn, doneBlock, isJoin, isPast, nil)
-			r.Ob("D2", fn, "on cancellation a deadline in the past is set before waiting for the helper", p.InstrPos(doneBlock.Instrs[0]), !reach,
+			r.Ob(id("D2"), fn, "on cancellation a deadline in the past is set before waiting for the helper", p.InstrPos(doneBlock.Instrs[0]), !reach,
 				"the cancel arm waits for the helper without first unblocking its pending I/O: the operation hangs until the peer acts", witnessPos(p, w)...)
 			// (b) the join happens on every non-error path to a return
 			reach2, w2 := reachFromBlockAvoid(op.Fn, doneBlock, isReturn, isJoin, errEdge)
-			r.Ob("D2", fn, "on cancellation the helper is joined before returning", p.InstrPos(doneBlock.Instrs[0]), !reach2,
+			r.Ob(id("D2"), fn, "on cancellation the helper is joined before returning", p.InstrPos(doneBlock.Instrs[0]), !reach2,
 				"the cancel arm can return while the helper goroutine is still running", witnessPos(p, w2)...)
 			// (c) disarm after the join on every non-error path to a return
 			var join ssa.Instruction
@@ -155,7 +173,7 @@ func runC17(r *Run, p *Prog) {
 			}
 			if join != nil {
 				reach3, w3 := reachInstr(op.Fn, join, isReturn, isZero, errEdge)
-				r.Ob("D2", fn, "after the join the deadline is cleared (zero time) before returning", join.Pos(), !reach3,
+				r.Ob(id("D2"), fn, "after the join the deadline is cleared (zero time) before returning", join.Pos(), !reach3,
 					"the operation returns with the past deadline still armed: every later operation on this connection fails with a timeout", witnessPos(p, w3)...)
 				// (d) the cancel arm returns ctx.Err()
 				okErr := true
@@ -169,20 +187,27 @@ func runC17(r *Run, p *Prog) {
 						okErr = false
 					}
 				}
-				r.Ob("D2", fn, "a cancelled operation reports ctx.Err()", join.Pos(), okErr && n > 0, "the cancel arm does not return the context's error")
+				r.Ob(id("D2"), fn, "a cancelled operation reports ctx.Err()", join.Pos(), okErr && n > 0, "the cancel arm does not return the context's error")
 			} else {
-				r.Ob("D2", fn, "the cancel arm joins the helper", p.InstrPos(doneBlock.Instrs[0]), false, "no receive from the result channel on the cancel arm")
+				r.Ob(id("D2"), fn, "the cancel arm joins the helper", p.InstrPos(doneBlock.Instrs[0]), false, "no receive from the result channel on the cancel arm")
 			}
 			// the past variable is only written by init
-			r.Ob("D2", fn, "the past deadline is a package variable initialised to a fixed time in the past", op.Fn.Pos(), len(past) > 0, "no package variable initialised with time.Unix(<small constant>, _) found")
+			r.Ob(id("D2"), fn, "the past deadline is a package variable initialised to a fixed time in the past", op.Fn.Pos(), len(past) > 0, "no package variable initialised with time.Unix(<small constant>, _) found")
 		})
 		// ---- D3
 		capOK := false
 		if c, ok := op.Chan.Size.(*ssa.Const); ok && c.Int64() >= 1 {
 			capOK = true
 		}
-		r.Ob("D3", fn, "result channel has capacity >= 1", op.Chan.Pos(), capOK, "with an unbuffered channel the helper leaks on the paths that return without receiving")
+		r.Ob(id("D3"), fn, "result channel has capacity >= 1", op.Chan.Pos(), capOK, "with an unbuffered channel the helper leaks on the paths that return without receiving")
 	}
+	return nops
+}
+
+func runC17(r *Run, p *Prog) {
+	ro := DiscoverRoles(p)
+	T, cg := ro.T, ro.CG
+	ctxOpTemplateRules(r, p, T, func(x string) string { return x }, "")
 	r.Floor("D1", 3)
 	r.Floor("D2", 12)
 	// ---- D4
